@@ -81,7 +81,8 @@ run_cmd do
       if !c.isInternalDetail then
         let ax ← liftCoreM (collectAxioms c)
         let ty ← liftTermElabM (Meta.ppExpr ti.type)
-        logInfo m!"THEOREM {{c}} AXIOMS {{ax.toList}} TYPE {{ty}}"
+        let tys := ((toString ty).replace "\\n" " ")
+        IO.println s!"THEOREM\\t{{c}}\\t{{",".intercalate (ax.toList.map toString)}}\\t{{tys}}"
 """
 
 
@@ -94,9 +95,12 @@ def audit(mod):
     rc, out = sh(["lake", "env", "lean", path], cwd=LEAN)
     os.unlink(path)
     thms = []
-    for m in re.finditer(r"THEOREM (\S+) AXIOMS \[(.*?)\] TYPE (.*?)(?=\n\S+?: info|\n\S*error|\Z)", out, re.S):
-        axs = [a.strip() for a in m.group(2).split(",") if a.strip()]
-        thms.append({"name": m.group(1), "axioms": axs, "statement": " ".join(m.group(3).split())})
+    for ln in out.split("\n"):
+        if ln.startswith("THEOREM\t"):
+            parts = ln.split("\t")
+            if len(parts) >= 4:
+                axs = [a for a in parts[2].split(",") if a]
+                thms.append({"name": parts[1], "axioms": axs, "statement": " ".join(parts[3].split())})
     return rc, out, thms
 
 
